@@ -12,6 +12,8 @@
      inject       the peer sends packet n; the handler will panic with `kind` on it
      handled      SessionHandler.HandlePacket is invoked with packet n
      quiet        the peer stopped sending and waited for the loop to settle
+     settled      no call is running any more (and, if the connection reports closed, the
+                  read loop has exited)
      end          every call returned, the read loop has exited
 
    Required (and nothing more):
@@ -80,6 +82,10 @@ Handled(n) == /\ n > handled /\ n <= injected /\ handled' = n
 
 \* the loop went on after every panic (all packets handled) or the connection is closing
 Quiet == (handled = injected \/ reason) /\ UNCHANGED hvars
+
+\* once a closing call, a failed write or the read loop has returned, and everything came to
+\* rest, the teardown has happened (a write error closes the connection)
+Settled == ((returned /\ handler) => teardowns = 1) /\ UNCHANGED hvars
 
 End == /\ open = <<>>
        /\ teardowns = (IF reason /\ handler THEN 1 ELSE 0)
